@@ -22,6 +22,8 @@ def check(chk, thorough=False):
     chk.run('C11.h', 'R-FLOW', 'the octets send_bundle() hands to a convergence-layer adaptor reach the CL send method unchanged (wrapped as a D-Bus byte array at most), also when they wait for a session first', lambda ob: c11h(tree, ob), floor=6)
     chk.run('C11.g', 'R-GUARD', 'a bundle that must not be fragmented, or is a fragment already, is never cut (its flags, payload and fragment fields stay as received) (= C05.a)', lambda ob: _c05a(tree, ob), floor=2)
     chk.run('C11.f', 'sibling', 'what is decoded is re-encoded unchanged: codec agreement, preserved flag bits / EID text / time values, RFC layouts (= C02.a, C02.c, C02.e)', lambda ob: _c02(tree, ob), floor=40)
+    chk.run('C11.i', 'R-GUARD', 'an administrative payload that is forwarded keeps its octets: falsy values and unknown record types are not re-spelled (= C02.d)', lambda ob: __import__('sa.props.c02', fromlist=['c02d']).c02d(tree, ob), floor=3)
+    chk.run('C11.j', 'sibling', 'every block with a CRC type gets its CRC recomputed on output (= C08.c)', lambda ob: __import__('sa.props.c08', fromlist=['c08c']).c08c(tree, ob), floor=8)
     chk.run('C11.e', 'R-ORDER', 'CRCs are computed on the bytes actually sent (= C08.a)', lambda ob: c08a(tree, ob), floor=3)
 
 
@@ -288,7 +290,18 @@ def c11c(tree, ob):
         ob.violate(AGENT, Q, src(hl)[:80], 'hop count is not advanced by exactly one per forward', hl)
     else:
         ob.site(AGENT, incs[0], 'hop count += 1 for every Hop Count block')
-    # age
+    # age: "now" is the current clock reading.  The timestamp generator keeps the last reading only to number bundles
+    # created within the same millisecond; it replaces it whenever the clock reads anything else (also something earlier)
+    ft = FuncView(tree, AGENT, 'Timestamper.__call__')
+    cmps = [n for n in walk_local(ft.func) if isinstance(n, ast.Compare) and 'self._time' in src(n) and 'is' not in [type(o).__name__.lower() for o in n.ops] and not any(isinstance(o, (ast.Is, ast.IsNot)) for o in n.ops)]
+    ordered = [n for n in cmps if any(isinstance(o, (ast.Lt, ast.LtE, ast.Gt, ast.GtE)) for o in n.ops)]
+    if ordered:
+        ob.violate(AGENT, ft.qual, src(ordered[0]), 'the timestamp generator holds on to its last reading while the clock reads less: after the clock was set back, "now" stays frozen and a forwarded '
+                   'bundle leaves with a Bundle Age computed from a time that is not the current one', ordered[0])
+    elif cmps:
+        ob.site(AGENT, cmps[0], 'Timestamper keeps a reading only while the clock reads the same')
+    else:
+        raise AnalysisError('C11.c: no comparison of the clock reading with the stored time in Timestamper.__call__')
     ages = [c for c in calls_in(fv.func) if isinstance(c.func, ast.Attribute) and c.func.attr == 'add_block' and 'BundleAgeBlock' in src(c)]
     g = one(ages, 'Bundle Age add', ob)
     age = pm('ctr.add_block(CanonicalBlock() / BundleAgeBlock(age=$a))', g)
@@ -474,4 +487,17 @@ def c11h(tree, ob):
             else:
                 ob.violate(CLA, qual, src(c)[:80] + '  with data = ' + src(d)[:40], 'the octets handed to the convergence layer are not the octets send_bundle() encoded (sliced, re-encoded or taken from '
                            'somewhere else): the transmitted bundle differs from the one whose blocks and CRCs were prepared', c)
+    # 3. nothing falls through: every return of a sender closure has handed the data to a CL or parked it
+    for (r, qual, func) in funcs:
+        if not qual.endswith('.send_bundle_func.sender'):
+            continue
+        fv = FuncView(tree, CLA, qual)
+        sinks = [c for c in calls_in(func) if (isinstance(c.func, ast.Attribute) and c.func.attr == 'send_bundle_data') or pm('self._sess_wait[$k].append($d)', c) is not None]
+        ok, wit = fv.cfg.must_pass(fv.cfg.entry, fv.cfg.exit, {fv.node(c) for c in sinks}, include_exc=False)
+        n += 1
+        if sinks and ok:
+            ob.site(CLA, func, qual + ': every path hands the data on or parks it')
+        else:
+            ob.violate(CLA, qual, 'return without send_bundle_data / parking', 'the sender closure has a path that neither hands the data to the convergence layer nor parks it for the session: the bundle '
+                       '(or this fragment of it) silently disappears while the agent records it as forwarded', func, path_text(wit) if wit else None)
     ob.require(n >= 6, 'send_bundle_data / parking sites in bp/cla.py: {}'.format(n))
